@@ -103,7 +103,56 @@ fn pick_leap(rng: &mut Rng, p_unsync: u64) -> char {
 
 const G: f64 = 1.0 / 1024.0;
 
-fn gen_grid_case(rng: &mut Rng, _idx: u64, _run: &Run) -> Vec<String> {
+
+/// the "one wide + two disjoint narrow" family (seeded change C03-f): W = [c-rw, c+rw], N1 and N2 inside W and
+/// disjoint from each other, so there are TWO regions of equal maximal overlap {W,N1} and {W,N2}; with
+/// `aligned` the narrow ones share W's outer edges exactly (ties on the Start / End bounds).  Unit weights, zero
+/// delay, so radius = sqrt(variance).  Candidate order is shuffled; sometimes a non-voting extra is appended.
+fn disjoint_pair_family(rng: &mut Rng, c: f64, rw: f64, rn: f64, gap: f64, aligned: bool) -> Vec<String> {
+    let d = if aligned { rw - rn } else { rn + gap };
+    let mut cs = vec![
+        cand_str(c, rw * rw, 0.0, false, 'n'),
+        cand_str(c - d, rn * rn, 0.0, false, *rng.pick(&['n', '5'])),
+        cand_str(c + d, rn * rn, 0.0, false, *rng.pick(&['n', 'u'])),
+    ];
+    match rng.below(4) {
+        0 => cs.push(cand_str(c, rn * rn, 0.0, true, 'n')),  // periodic: not a voter
+        1 => cs.push(cand_str(c, rn * rn, 0.0, false, 'x')), // unsynchronised: not a voter
+        _ => {}
+    }
+    for i in (1..cs.len()).rev() {
+        let j = rng.usize(0, i);
+        cs.swap(i, j);
+    }
+    vec![format!(
+        "select min={} ws={} wd={} mu={} c={}",
+        rng.usize(1, 2),
+        f64hex(1.0),
+        f64hex(1.0),
+        f64hex(4.0 * rw),
+        cs.join(",")
+    )]
+}
+
+fn gen_grid_case(rng: &mut Rng, idx: u64, _run: &Run) -> Vec<String> {
+    if idx == 1 {
+        // tie witness on the REAL code: F = [-5,0] touches the consensus region [0,10] of A, B, C from the left,
+        // E = [10,15] from the right; both are selected although F and E share no point with each other
+        let iv = |o: f64, r: f64| cand_str(o * G, r * G * r * G, 0.0, false, 'n');
+        return vec![format!(
+            "select min=1 ws={} wd={} mu={} c={},{},{},{},{}",
+            f64hex(1.0), f64hex(1.0), f64hex(16.0 * G),
+            iv(-2.5, 2.5), iv(5.0, 5.0), iv(5.0, 5.0), iv(5.0, 5.0), iv(12.5, 2.5)
+        )];
+    }
+    if idx % 16 == 5 {
+        // fixed 1/16 share: one wide + two disjoint narrow, on the grid
+        let rw = (rng.usize(4, 8) as f64) * G;
+        let rn = (rng.usize(1, 2) as f64) * G * 0.5;
+        let c = (rng.range(-8, 8) as f64) * G;
+        let aligned = rng.chance(1, 2);
+        return disjoint_pair_family(rng, c, rw, rn, G * 0.5, aligned);
+    }
     let n = match rng.below(12) {
         0 => 0,
         1 => 1,
@@ -134,7 +183,15 @@ fn gen_grid_case(rng: &mut Rng, _idx: u64, _run: &Run) -> Vec<String> {
     )]
 }
 
-fn gen_rand_case(rng: &mut Rng, _idx: u64, _run: &Run) -> Vec<String> {
+fn gen_rand_case(rng: &mut Rng, idx: u64, _run: &Run) -> Vec<String> {
+    if idx % 16 == 5 {
+        // fixed 1/16 share: one wide + two disjoint narrow, random doubles
+        let rw = 0.02 + 0.05 * rng.f64_unit();
+        let rn = rw * (0.1 + 0.2 * rng.f64_unit());
+        let c = 10.0 * (rng.f64_unit() - 0.5);
+        let gap = rw * 0.1 * rng.f64_unit();
+        return disjoint_pair_family(rng, c, rw, rn, gap, false);
+    }
     let n = rng.usize(1, 12);
     let min = rng.usize(1, 4);
     let ws = 0.5 + 2.5 * rng.f64_unit();
@@ -317,6 +374,46 @@ fn exec_case(ops: &[String], run: &mut Run) {
                             );
                         }
                         run.hit("agreeing-checked");
+                    }
+                    // c03_selected_share_point: the selected sources must hang together through ONE common region.
+                    // Evaluated with the code's own comparisons (IEEE <=, closed intervals, so touching counts): there
+                    // must be a region [a,b], a = some voter's lower bound <= b = some voter's upper bound, such that
+                    // (1) the voters covering all of [a,b] are >= minimum, a strict majority of all voters, and all
+                    // selected, and (2) EVERY selected source's interval meets [a,b].  (Two selected sources that each
+                    // only touch opposite ends of the region need not meet each other: see grid case 1.)
+                    if well_formed {
+                        let sel: Vec<&SourceSnapshot> = p.cands.iter().filter(|c| ids.contains(&c.index.0)).collect();
+                        let mut found = false;
+                        'outer: for va in &voters {
+                            let a = lo(va);
+                            for vb in &voters {
+                                let b = hi(vb);
+                                if !(a <= b) {
+                                    continue;
+                                }
+                                let core: Vec<u64> = voters.iter().filter(|c| lo(c) <= a && hi(c) >= b).map(|c| c.index.0).collect();
+                                if core.len() >= p.min
+                                    && 2 * core.len() > voters.len()
+                                    && core.iter().all(|i| ids.contains(i))
+                                    && sel.iter().all(|c| lo(c) <= b && hi(c) >= a)
+                                {
+                                    found = true;
+                                    break 'outer;
+                                }
+                            }
+                        }
+                        if !found {
+                            run.oracle_fail(
+                                "c03_selected_share_point",
+                                &format!("selected={} voters={} min={}", ids.len(), voters.len(), p.min),
+                                &format!("selection {:?}: no region shared by a sufficient majority of the voters that every selected source's interval meets (intervals {:?})",
+                                    ids, sel.iter().map(|c| (c.index.0, lo(c), hi(c))).collect::<Vec<_>>()),
+                            );
+                        }
+                        // informational: do ALL selected intervals share one point?  (not required: ties)
+                        let max_lo = sel.iter().map(|c| lo(c)).fold(f64::NEG_INFINITY, f64::max);
+                        let min_hi = sel.iter().map(|c| hi(c)).fold(f64::INFINITY, f64::min);
+                        run.hit(if max_lo <= min_hi { "selected-common-point" } else { "selected-touching-chain" });
                     }
                     run.hit(if out.len() == p.cands.len() { "selected-all" } else { "selected-some" });
                     run.nontrivial(op);
